@@ -375,6 +375,7 @@ func (s *Session) applyContract(st *State, con *Contract, callee *ssa.Function, 
 	}
 	cs := s.callsiteSpec(name)
 	cenv := s.callerEnv(st)
+	cenv.pos = pos
 	for k, v := range env.vars {
 		if strings.HasPrefix(k, "arg") || k == "recv" {
 			cenv.vars[k] = v
@@ -496,6 +497,7 @@ func (s *Session) applyContract(st *State, con *Contract, callee *ssa.Function, 
 	st.counts[rk] = Add(cur, IntLit(1))
 	if cs != nil {
 		cenv2 := s.callerEnv(st)
+		cenv2.pos = pos
 		cenv2.old = old
 		cenv2.result = env.result
 		for k, v := range env.vars {
